@@ -93,6 +93,16 @@ theorem gen_alloc_sound (inp : Input) (wf : WellFormed inp) (fuel : Nat) (hf : 0
     obtain ⟨out, h1, h2⟩ := encR_ok h'.symm
     exact ⟨strip out, by rw [h2, encOut_strip], alloc_sound inp out wf h1⟩
 
+/-- **One range each, for the generated function**: no (vertex, resource) pair of a returned dict has two ranges -/
+theorem gen_alloc_unique (inp : Input) (wf : WellFormed inp) (fuel : Nat) (hf : 0 < fuel) (o : OutTy)
+    (h : genAllocate inp fuel = .ok o) :
+    ∃ a : Alloc, o = encA a ∧ ((flat a).map fun t => (t.1, t.2.1)).Nodup := by
+  rcases gen_allocate_det inp wf fuel hf with h' | h'
+  · rw [h] at h'; simp at h'
+  · rw [h] at h'
+    obtain ⟨out, h1, h2⟩ := encR_ok h'.symm
+    exact ⟨strip out, by rw [h2, encOut_strip], alloc_unique inp out wf h1⟩
+
 /-- **Only failure, for the generated function.**  On the documented domain: with any fuel the outcome is a dict,
 `InsufficientResourceError` or a cut-off loop - never another exception; and from some fuel on no loop is cut off -/
 theorem gen_alloc_only_failure (inp : Input) (wf : WellFormed inp) (dom : InDomain inp) :
